@@ -60,7 +60,7 @@ def harness(E, ctx, aux, desc):
 
 
 def jobs(tier):
-    return s1_jobs(tier, harness) + front_end_jobs(tier, harness)
+    return s1_jobs(tier, harness, with_routes=False) + front_end_jobs(tier, harness)
 
 
 def replay(desc):
